@@ -2,7 +2,7 @@
    and followed by Print Assumptions. *)
 From Coq Require Import ZArith NArith List Bool Arith.
 From Falcon.lib Require Import PyStr.
-From Falcon.C14 Require Import Spec Oracle Model ModelAsync ProofsDefs ProofsSync ProofsOracle ProofsRefuted.
+From Falcon.C14 Require Import Spec Oracle Model ModelAsync ProofsDefs ProofsSync ProofsAsync ProofsOracle ProofsRefuted.
 Import ListNotations.
 Local Open Scope nat_scope.
 
@@ -53,6 +53,55 @@ Theorem C14_oracle_exact : forall impl spec i,
   first_bad i true impl spec = None -> map o_res impl = map o_res spec.
 Proof. exact first_bad_sync_None. Qed.
 Print Assumptions C14_oracle_exact.
+
+(* ---------------------------------------------------------------- async reader *)
+
+(* a conforming async iterator: every item is the next piece of the stream, finitely many *)
+Definition good_aiter (S : Type) (nxt : S -> option bytes * S) (sabs : S -> bytes)
+           (smeas : S -> nat) : Prop :=
+  forall s : S, let (o, s') := nxt s in
+    match o with
+    | Some c => sabs s = c ++ sabs s' /\ smeas s' < smeas s
+    | None => sabs s = nil
+    end.
+
+(* refinement, one operation (read / peek / pipe / exhaust), for every source chunking incl.
+   empty chunks; AInv is the representation invariant, aabs the cursor a state stands for *)
+Theorem C14_async_refine_op_basic : forall S nxt sabs smeas cs F T,
+  0 < cs -> good_aiter S nxt sabs smeas ->
+  forall st o r st', basic_op o = true -> AInv S sabs smeas F T st ->
+  arun_op S nxt cs true F st o = (r, st') ->
+  sp_op cs o (aabs S sabs st) = (r, aabs S sabs st') /\ AInv S sabs smeas F T st'.
+Proof. exact a_refine_op_basic. Qed.
+Print Assumptions C14_async_refine_op_basic.
+
+(* tell() is the cursor position; eof is only reported at the end of the cursor *)
+Theorem C14_async_tell_is_position : forall S sabs smeas F T st,
+  AInv S sabs smeas F T st -> atell S st + length (aabs S sabs st) = T.
+Proof. exact atell_spec. Qed.
+Print Assumptions C14_async_tell_is_position.
+
+Theorem C14_async_eof_sound : forall S sabs smeas F T st,
+  AInv S sabs smeas F T st -> aeof S st = true -> aabs S sabs st = nil.
+Proof. exact aeof_sound. Qed.
+Print Assumptions C14_async_eof_sound.
+
+(* FULL STATEMENT (target): the same for every history of async operations incl. read_until /
+   pipe_until and nested delimit.  Proved part: read / peek / pipe / exhaust histories on the
+   top-level reader, results + tell + eof. *)
+Theorem C14_async_refine_history_read_peek_partial : forall cs F chunks ops,
+  0 < cs -> length chunks + 3 <= F -> forallb basic_op ops = true ->
+  Forall2 obs_ok (async_history cs true F chunks (flat ops))
+          (spec_history cs (length (concat chunks)) (concat chunks) (flat ops)).
+Proof. exact a_refine_history_basic. Qed.
+Print Assumptions C14_async_refine_history_read_peek_partial.
+
+Theorem C14_oracle_sound_async_partial : forall cs F chunks ops,
+  0 < cs -> length chunks + 3 <= F -> forallb basic_op ops = true ->
+  oracle false cs (length (concat chunks)) (concat chunks) (flat ops)
+         (async_history cs true F chunks (flat ops)) = None.
+Proof. exact oracle_sound_async_basic. Qed.
+Print Assumptions C14_oracle_sound_async_partial.
 
 (* ---------------------------------------------------------------- defects of the code as found *)
 
